@@ -305,7 +305,9 @@ class ExprMixin:
       # numpy semantics: x/0 is non-finite; folded into the NaN flag (A1).
       return VReal(z3.If(b.t == 0, z3.RealVal(0), a.t / b.t), z3.Or(nan, b.t == 0))
     if isinstance(op, ast.Pow):
-      if z3.is_rational_value(b.t) or z3.is_int_value(b.t):
+      bt = z3.simplify(b.t)
+      if z3.is_rational_value(bt) or z3.is_int_value(bt):
+        b = VReal(bt, b.nan)
         if b.t.as_fraction() == 2:
           return VReal(a.t * a.t, nan)
         if b.t.as_fraction() == 1:
